@@ -51,6 +51,8 @@ def main():
             "level_note": P.level_note,
             "technique": P.technique,
         })
+    import subprocess
+    fix_commits = [l for l in subprocess.run(["git", "-C", "/repo", "log", "--reverse", "--format=%h %s", "--grep=^fix:"], capture_output=True, text=True).stdout.strip().split("\n") if l]
     manifest = {
         "version": 1,
         "setup_cmd": "./setup.sh",
@@ -71,7 +73,9 @@ def main():
         "checks": checks,
         "not_applicable": na,
         "notes": "All checks: ./check <id> [--tier quick|thorough] [--replay FILE]; exit 0 pass, 1 violation, 2 inconclusive. "
-                 "Known findings: known_findings.jsonl. See DESIGN.md.",
+                 "Known findings: known_findings.jsonl + known_findings.d/*.jsonl (open entries print KNOWN-FINDING, fixed entries suppress nothing). "
+                 "No source hooks were needed (hooks.source_commits is empty; the guard variable is exported but nothing in /repo reads it). "
+                 "Repairs of genuine defects committed to /repo as unguarded `fix:` commits: " + "; ".join(fix_commits) + ". See DESIGN.md §9.",
     }
     with open(os.path.join(ROOT, "MANIFEST.json"), "w") as f:
         json.dump(manifest, f, indent=1)
